@@ -514,8 +514,8 @@ CHECKS = {
             # long single-goroutine histories with backlogs past 16/32/64/128 pending items (storage growth, compaction, reuse after a drain)
             dict(name="large", run="TestC11Large", checks=dict(quick=3000, thorough=30000), shards=dict(quick=1, thorough=4)),
             # free-running producers/consumer on the real scheduler inside a bubble: no stuck consumer at quiescence, conservation, duplicate counts
-            dict(name="stress", run="TestC11Stress", checks=dict(quick=60, thorough=300), shards=dict(quick=4, thorough=16),
-                 args=dict(quick=["-c11.rounds=300"], thorough=["-c11.rounds=1000"])),
+            dict(name="stress", run="TestC11Stress", checks=dict(quick=60, thorough=200), shards=dict(quick=4, thorough=8),
+                 args=dict(quick=["-c11.rounds=300"], thorough=["-c11.rounds=600"])),
             # the consumer parked between its emptiness check and its select while inserts complete, the queue is closed and another goroutine holds the queue's mutex
             dict(name="window", run="TestC11Window", checks=dict(quick=600, thorough=6000), shards=dict(quick=1, thorough=4)),
         ],
